@@ -164,11 +164,10 @@ class Hist1DAdapter(Adapter):
             return Mismatch(["accepted"], {"raised": obs["exc"]})
         if action in ("Fill", "FindBin") and "ret" in view:
             p, r = args[0], args[-1]
-            if p != NAN:
-                exp = None if r == NONE_RET else r
-                got = obs["ret"]
-                if not (got is None and exp is None) and not (got is not None and exp is not None and int(got) == exp and not isinstance(got, bool)):
-                    bad.append("ret"); det["ret"] = {"expected": exp, "observed": repr(got)}
+            exp = None if r == NONE_RET else r
+            got = obs["ret"]
+            if not (got is None and exp is None) and not (got is not None and exp is not None and int(got) == exp and not isinstance(got, bool)):
+                bad.append("ret"); det["ret"] = {"expected": exp, "observed": repr(got)}
         if real is None:
             return Mismatch(["accepted"], {"raised": "no object"})
         L = h["bins"]
